@@ -639,6 +639,28 @@ func (c Config) YAML() string {
 	return b.String()
 }
 
+// InitConfig lets `goat init --force` write goat.yaml from flags that express c. It returns false
+// (and writes nothing) when c cannot be expressed by flags: an explicit empty list, a nil ignore list.
+func InitConfig(goat, dir string, c Config) bool {
+	ign := c.Ignores
+	if ign == nil { // goat's default list, spelled out
+		ign = []string{".git", ".gitignore", ".DS_Store", ".idea", ".vscode", ".venv", "vendor", "testdata", "node_modules"}
+	}
+	if len(ign) == 0 || len(c.MainEntries) == 0 || len(c.PrinterModes) == 0 {
+		return false
+	}
+	args := []string{"init", "--force", "--old", c.Old, "--new", c.New, "--app-name", c.AppName, "--app-version", c.AppVersion,
+		"--granularity", c.Granularity, "--diff-precision", fmt.Sprint(c.Precision), "--threads", fmt.Sprint(c.Threads),
+		"--goat-package-name", c.PkgName, "--goat-package-alias", c.Alias, "--goat-package-path", c.PkgPath,
+		"--ignores", strings.Join(ign, ","), "--main-entries", strings.Join(c.MainEntries, ","),
+		"--printer-config-mode", strings.Join(c.PrinterModes, ","), "--printer-config-tabwidth", fmt.Sprint(c.Tabwidth),
+		"--printer-config-indent", fmt.Sprint(c.Indent), "--data-type", c.DataType, fmt.Sprintf("--skip-nested-modules=%v", c.SkipNested)}
+	if c.Race {
+		args = append(args, "--race")
+	}
+	return RunGoat(goat, dir, nil, args...).Exit == 0
+}
+
 // WriteConfig writes goat.yaml into dir.
 func WriteConfig(dir string, c Config) error {
 	return os.WriteFile(filepath.Join(dir, "goat.yaml"), []byte(c.YAML()), 0644)
